@@ -4,6 +4,7 @@
 """Defines a polygon."""
 
 import warnings
+from copy import copy
 
 import numpy as np
 import rowan
@@ -362,31 +363,22 @@ class Polygon(Shape2D):
         relative to its centroid. The tensor is then rotated back to the
         orientation of the polygon and shifted to the original centroid.
         """
-        # Save the original configuration as we translate and rotate it to the
-        # origin so that we can reset after (since we're modifying the internal
-        # state in order to use self.polar_moment_inertia). The sequence here
-        # is important: we must translate before rotating so that the parallel
-        # axis theorem can be applied in the reverse direction (rotating about
-        # the origin before translating to the actual centroid).
-        original_center = self.center.copy()
-        original_vertices = self._vertices.copy()
-        original_normal = self._normal.copy()
-
-        self.center = (0, 0, 0)
+        # The polar moment is computed for a centered copy of the polygon so that this
+        # query does not touch the state of the shape (nor arrays handed out earlier).
+        # The sequence here is important: the polar moment is taken about the
+        # centroid, the tensor is rotated about the origin, and only then is the
+        # parallel axis theorem applied to move it to the actual centroid.
+        original_center = self.center
         mat, _ = rowan.mapping.kabsch(
             [self.normal, -self.normal], [[0, 0, 1], [0, 0, -1]]
         )
-        self._vertices = self._vertices.dot(mat.T)
-        self._normal = np.asarray([0, 0, 1])
+        centered = copy(self)
+        centered._vertices = self._vertices - original_center
 
-        inertia_tensor = np.diag([0, 0, self.polar_moment_inertia])
+        inertia_tensor = np.diag([0, 0, centered.polar_moment_inertia])
         shifted_inertia_tensor = translate_inertia_tensor(
             original_center, rotate_order2_tensor(mat, inertia_tensor), self.area
         )
-
-        self.center = original_center
-        self._vertices = original_vertices
-        self._normal = original_normal
 
         return shifted_inertia_tensor
 
